@@ -63,6 +63,9 @@ pub fn seeds() -> Vec<String> {
         "<ul><li>\u{1f600}<a href=\"/\u{1f600}\">q\u{1f600}</a> <em>*</em>\u{fe0f}z</li></ul>",
         "<table><tr><td>\u{1f600}</td><td>q\u{1f468}\u{200d}\u{1f469} r</td></tr></table>",
         "<pre>\u{1f600}\t\u{1f600}\n#\u{fe0f}</pre>",
+        // prefixed blocks whose content has no width but still starts a text block
+        "<blockquote><sup></sup></blockquote><ul><li id=\"a\"></li></ul>",
+        "<ol><li><pre> </pre></li></ol><dl><dd><span id=\"x\"></span></dd></dl>",
         "<ul><li>\u{301}</li></ul>",
         "<blockquote>\u{200b}</blockquote><ol><li>\u{301}\u{301} \u{301}</li></ol>",
         "<table><tr><td>\u{301}</td></tr></table>",
